@@ -267,6 +267,50 @@ func ruleIfaceEq(c *Ctx, r *Report, rule string, reach map[*ssa.Function]bool) {
 				}
 				scanOr(nf)
 			}
+			if !guarded {
+				// the guard lives in a helper that classifies the operands: ask the interpreted machine — every path
+				// that writes the result of comparing two stack values must have excluded a block operand before
+				if vm, err := c.vmModel(); err == nil {
+					writes, safe := 0, 0
+					for _, arm := range vm.Arms {
+						for _, pth := range arm.Paths {
+							for i, ev := range pth.Events {
+								if ev.Kind != "stk:w" || ev.Val.K != vTag || ev.Val.Tag != "cmp" {
+									continue
+								}
+								writes++
+								desc, _ := ev.Val.Data.(string)
+								ops := strings.FieldsFunc(desc, func(r rune) bool { return r == ' ' })
+								okPath := false
+								for _, prev := range pth.Events[:i] {
+									if prev.Kind != "if" {
+										continue
+									}
+									for _, o := range ops {
+										if !strings.HasPrefix(o, "stk(") {
+											continue
+										}
+										if prev.Detail == "callres(isBlock("+o+"))=false" {
+											okPath = true
+										}
+										for _, sc := range []string{"isInt", "isFloat", "isString", "isBool", "isNumber"} {
+											if prev.Detail == "callres("+sc+"("+o+"))=true" {
+												okPath = true
+											}
+										}
+									}
+								}
+								if okPath {
+									safe++
+								}
+							}
+						}
+					}
+					if writes > 0 && safe == writes {
+						guarded = true
+					}
+				}
+			}
 			r.check(guarded, rule, fmt.Sprintf("%s/iface-eq#%d", ssaFuncName(f), n), "guarded against block == block", "two run-time values are compared with == without excluding that both are blocks (comparing two Block values panics: uncomparable type)", c.pos(be.Pos()))
 			return true
 		})
